@@ -143,6 +143,9 @@ class Stranded(Harness):
 
     def skeletons(self, tier, seed):
         gs = [dict(kind="ACGTnEncoding", N=3, m=m, api="genomic_sequence") for m in (0, 1, 2)]     # Genome sequence object, 0-2 intervals
+        # two chromosomes (the same symbolic sequence under two names would hide mix-ups: chr2 is its reverse), 3 intervals in an
+        # order that is not its own inverse
+        gs += [dict(kind="ACGTnEncoding", N=3, m=3, api="genomic_sequence", chroms=c) for c in ([1, 0, 0], [1, 1, 0])]
         if tier == "quick":
             return [dict(kind=k, N=3, m=m) for k in ("ascii", "ACGTnEncoding") for m in (1, 2)] + gs
         return [dict(kind=k, N=N, m=m) for k in ("ascii", "ACGTnEncoding", "ACTGEncoding") for N in (4, 5) for m in (1, 2)][:-1] + gs + \
@@ -165,8 +168,9 @@ class Stranded(Harness):
         if skel.get("api") == "genomic_sequence":
             from bionumpy.genomic_data.genomic_sequence import GenomicSequence
             from bionumpy.datatypes import StrandedInterval
-            gseq = GenomicSequence.from_dict({"chr1": seq})
-            iv = StrandedInterval(["chr1"] * m, ctx.arr([x[f"s{i}"] for i in range(m)], "int64"), ctx.arr([x[f"e{i}"] for i in range(m)], "int64"),
+            chroms = skel.get("chroms", [0] * m)
+            gseq = GenomicSequence.from_dict({"chr1": seq, "chr2": seq[::-1]} if "chroms" in skel else {"chr1": seq})
+            iv = StrandedInterval(["chr1" if c == 0 else "chr2" for c in chroms], ctx.arr([x[f"s{i}"] for i in range(m)], "int64"), ctx.arr([x[f"e{i}"] for i in range(m)], "int64"),
                                   EncodedArray(ctx.arr([x[f"neg{i}"] for i in range(m)], "uint8"), StrandEncoding))
             out = gseq.extract_intervals(iv, stranded=True)
             assert len(out) == m, (len(out), m)
@@ -180,11 +184,12 @@ class Stranded(Harness):
         if isinstance(out, Exc):
             return False
         N, m = skel["N"], skel["m"]
-        b = [x[f"b{i}"].t for i in range(N)]
+        b0 = [x[f"b{i}"].t for i in range(N)]
         if len(out["rows"]) != m:
             return False
-        conj = [TI(a) == t for a, t in zip(out["seq"], b)]
+        conj = [TI(a) == t for a, t in zip(out["seq"], b0)]
         for i in range(m):
+            b = b0[::-1] if skel.get("chroms", [0] * m)[i] == 1 else b0
             s, e, neg = x[f"s{i}"].t, x[f"e{i}"].t, x[f"neg{i}"].t == 1
             row = out["rows"][i]
             L = len(row)
@@ -204,7 +209,8 @@ class Stranded(Harness):
         b = [cx[f"b{i}"] for i in range(N)]
         exp = []
         for i in range(m):
-            sub = b[cx[f"s{i}"]:cx[f"e{i}"]]
+            src = b[::-1] if skel.get("chroms", [0] * m)[i] == 1 else b
+            sub = src[cx[f"s{i}"]:cx[f"e{i}"]]
             exp.append([comp_py(skel["kind"], v) for v in reversed(sub)] if cx[f"neg{i}"] == 1 else sub)
         if cout["rows"] != exp:
             return (f"strand specific sequences of {b} under {[(cx[f's{i}'], cx[f'e{i}'], '+-'[cx[f'neg{i}']]) for i in range(m)]}"
